@@ -84,6 +84,11 @@ func stabilityPool() (all []item, small []item) {
 		x, _ := ts.build(ix)
 		add(itemOf(txCodec, x, fmt.Sprintf("tx#%d", ix)), i == 0 || i == 5)
 	}
+	js := txJsonSpace()
+	for i, ix := range spread(js.total(), 3) {
+		x, _ := js.build(ix)
+		add(itemOf(txJsonCodec, x, fmt.Sprintf("txjson#%d", ix)), i == 2)
+	}
 	for i, ix := range []int64{1, 2, ls.total() / 2, ls.total() - 1} {
 		x, _ := ls.build(ix)
 		add(itemOf(txsCodec, x, fmt.Sprintf("txs#%d", ix)), i == 1 || i == 3)
